@@ -24,6 +24,7 @@ This file is named mock_ instead of mock so that it can import the standard mock
 """
 
 import inspect
+import sys
 from unittest import mock
 
 from .decorators import asynq
@@ -146,20 +147,32 @@ def _make_patch_async(
 class _PatchAsync(_patch):
     def __enter__(self):
         mock_fn = super(_PatchAsync, self).__enter__()
-        if self.new_callable is not None:
-            # a replacement made by new_callable has not been through _maybe_wrap_new: if
-            # it cannot take the attributes set below (a bound method), install a wrapper
-            # (patch.multiple: mock_fn is a dict, which is left alone)
-            wrapped = _maybe_wrap_new(mock_fn)
-            if wrapped is not mock_fn:
-                setattr(self.target, self.attribute, wrapped)
-                mock_fn = wrapped
-        # so we can also mock non-functions for compatibility
-        if callable(mock_fn):
-            async_fn = _AsynqWrapper(mock_fn)
-            mock_fn.asynq = async_fn
-            setattr(mock_fn, "async", async_fn)
-            mock_fn.asyncio = _AsyncioWrapper(mock_fn)
+        try:
+            if self.new_callable is not None:
+                # a replacement made by new_callable has not been through _maybe_wrap_new: if
+                # it cannot take the attributes set below (a bound method), install a wrapper
+                # (patch.multiple: mock_fn is a dict, which is left alone)
+                wrapped = _maybe_wrap_new(mock_fn)
+                if wrapped is not mock_fn:
+                    setattr(self.target, self.attribute, wrapped)
+                    mock_fn = wrapped
+            # so we can also mock non-functions for compatibility
+            if callable(mock_fn):
+                async_fn = _AsynqWrapper(mock_fn)
+                mock_fn.asynq = async_fn
+                try:
+                    setattr(mock_fn, "async", async_fn)
+                except AttributeError:
+                    # a spec_set mock takes only the attributes the original has, and the
+                    # legacy alias is not one of them
+                    pass
+                mock_fn.asyncio = _AsyncioWrapper(mock_fn)
+        except BaseException:
+            # the replacement is installed already, and __exit__ is not called for an
+            # __enter__ that fails (e.g. a spec_set mock refuses the attributes): put the
+            # original back, like the standard library does for its own failures
+            if not self.__exit__(*sys.exc_info()):
+                raise
         return mock_fn
 
     def copy(self):
